@@ -407,6 +407,18 @@ func runC04(r *Runner, tier string, rng *Rng) {
 				feat += "v"
 			}
 		}
+		dsseCase := rng.Chance(45)
+		if dsseCase && rng.Chance(35) {
+			// the library re-encodes an envelope's payload only in SetPayload: change the content, sign,
+			// write to disk, load and verify (an escape the loader cannot read back shows here)
+			ki := rng.Intn(2)
+			ops = append(ops, map[string]any{"op": "setname", "s": genStr(rng, 60)}, map[string]any{"op": "sign", "key": ki},
+				map[string]any{"op": "dumpload"}, map[string]any{"op": "verify", "key": ki})
+			feat += "mu-s-dl-v"
+			for kk := range signed {
+				delete(signed, kk)
+			}
+		}
 		for k := 0; k < 3; k++ {
 			ops = append(ops, map[string]any{"op": "verify", "key": k})
 		}
@@ -417,7 +429,7 @@ func runC04(r *Runner, tier string, rng *Rng) {
 			payload = genLayoutTree(rng, 30)
 		}
 		r.St.Count("random")
-		batch = append(batch, mkCase(tr, rng.Chance(45), payload, ops, "rnd:"+feat))
+		batch = append(batch, mkCase(tr, dsseCase, payload, ops, "rnd:"+feat))
 		if len(batch) >= 100 {
 			flush()
 		}
